@@ -25,17 +25,17 @@ SCH = {**SCHEMA, ('Mininec', 'power'): 'real', ('Mininec', 'g0'): 'real'}
 
 
 def slice_stmts(eng):
+    """head: the scalar bookkeeping statements before the direction vectors (targets self.ff_dist, self.ff_power, rd, k9 --
+    wherever they stand before the image loop); tail: EVERYTHING after the assignment of x34 (so that a statement put
+    between the projections and the tables is executed too)"""
     f = eng.get_fnode(Q)
-    head = []
-    for st in f.body:
-        if isinstance(st, ast.Assign):
-            t = ast.unparse(st.targets[0])
-            if t in ('self.ff_dist', 'self.ff_power', 'rd', 'k9'):
-                head.append(st)
-    first_tail = find_stmt(f, lambda n: isinstance(n, ast.Assign) and ast.unparse(n.targets[0]) == 'p123'
-                           and n in f.body)
-    k = f.body.index(first_tail)
-    return head, f.body[k:]
+    tgt = [ast.unparse(st.targets[0]) if isinstance(st, ast.Assign) else None for st in f.body]
+    if 'x34' not in tgt:
+        from pyvc.source import Unresolved
+        raise Unresolved('x34 = ... in compute_far_field')
+    kx = tgt.index('x34')
+    head = [st for st, t in zip(f.body[:kx], tgt[:kx]) if t in ('self.ff_dist', 'self.ff_power', 'rd', 'k9')]
+    return head, f.body[kx + 1:]
 
 
 def run_slice(eng, pwr_given, dist_given):
